@@ -1207,6 +1207,8 @@ class Engine(object):
     if user_table is None:
       for c in table.get_helper_columns():
         self.delete_column(c)
+      # Formulas that failed on an unknown column of this table must now fail on the table itself.
+      self.new_column_name(table)
 
   def _maybe_update_trigger_dependencies(self):
     if not self._have_trigger_columns_changed:
